@@ -8,7 +8,7 @@ def plan(tier):
                 "cfg": "SuffixIndexMC_C06_n.cfg" if q else "SuffixIndexMC_C06_n_thorough.cfg",
                 "timeout": 3000, "args": ["-coverage", "1"]}],
         "families": [{"fam": "fmd", "trace": "SuffixIndexTraceFmd", "nfiles": 2, "timeout": 3000}],
-        "required_obligations": ["exhaustive_small", "palindromic_sequence", "periodic_sequence",
+        "required_obligations": ["exhaustive_small", "bwt_run_longer_than_occ_rate", "fmd_over_120_sequences", "palindromic_sequence", "periodic_sequence",
                                  "repeated_between_sequences", "with_n", "with_lower_case", "several_sequences",
                                  "occ_rate_gt64_second_checkpoint", "min_len_eq_pattern_len", "ext_spelled_occurring",
                                  "ext_every_symbol"],
@@ -17,7 +17,9 @@ def plan(tier):
                 "init_interval()/init_interval_with(c) spelling occurring strings in random direction orders plus "
                 "extensions by every symbol of ACGTNacgtn; exhaustive sequence sets (1 sequence <=4/5, 2 sequences <=2 "
                 "over ACGT) and random sets (N, lower case, periodic, palindromic, copies across sequences, total "
-                "length <=60, patterns <=15 from either strand with mutations, l in {1,2,3,|P|}, Occ rates 1,2,3,64,65)",
+                "length <=60, patterns <=15 from either strand with mutations, l in {1,2,3,|P|}, Occ rates 1,2,3,64,65); reads with homopolymers / tandem repeats / N runs of more than "
+                "two Occ blocks (rates 65, 70, 128) with run pieces + flanks as patterns and 20..60-step extension "
+                "chains by the run symbols; indexes over 125/126/127 short reads",
         "bounds": {"mc": "ACGT: 1 sequence <=3 (quick)/4 (thorough) or 2 sequences of total <=2/3, patterns <=3, "
                          "l in {1,2}, Occ by definition and by the Occ machine (k=2,T=1); {A,T,N,a,t}: sequences <=2/3, "
                          "patterns <=2/3",
